@@ -264,3 +264,77 @@ func (rn *runner) flagMatrix() {
 		}
 	}
 }
+
+// ---- version fields: record-layer version x legacy_version in all orders, with / without supported_versions ----
+
+var versVals = []uint16{0x0300, 0x0301, 0x0302, 0x0303, 0x0304, 0x0200, 0xfefd}
+
+func (rn *runner) versionSweep() {
+	curves := []byte{0, 4, 0x2a, 0x2a, 0, 29}
+	sigalgs := []byte{0, 4, 4, 3, 8, 4}
+	ks := append([]byte{0, 36, 0, 29, 0, 32}, make([]byte, 32)...)
+	k := 0
+	for _, rv := range versVals {
+		for _, lv := range versVals {
+			for _, withSV := range []bool{false, true} {
+				exts := [][]byte{extEnc(23, nil), extEnc(10, curves), extEnc(13, sigalgs)}
+				if withSV {
+					exts = append(exts, extEnc(43, []byte{4, 3, 4, 3, 3}), extEnc(51, ks))
+				}
+				raw := helloFrom(exts)
+				raw[1], raw[2] = byte(rv>>8), byte(rv)
+				raw[9], raw[10] = byte(lv>>8), byte(lv)
+				k++
+				tlsRange := rv>>8 == 3 && lv>>8 == 3
+				rn.rawCase("versions", fmt.Sprintf("versions/rec=%04x/legacy=%04x/sv=%v", rv, lv, withSV), allFlags()[k%8], raw, tlsRange)
+			}
+		}
+	}
+	// SetTLSVers directly (exported), every (min, max) incl. 0 and four extension lists
+	sv := func(vs ...uint16) tls.TLSExtension { return &tls.SupportedVersionsExtension{Versions: vs} }
+	lists := [][]tls.TLSExtension{
+		nil,
+		{&tls.ExtendedMasterSecretExtension{}, sv(0x0a0a, tls.VersionTLS13, tls.VersionTLS12)},
+		{sv(0x1a1a)},
+		{sv(tls.VersionTLS12), sv(tls.VersionTLS13, tls.VersionTLS11)},
+	}
+	vals := append([]uint16{0}, versVals...)
+	for _, mn := range vals {
+		for _, mx := range vals {
+			for li, es := range lists {
+				terms := make([]string, len(es))
+				for i, e := range es {
+					terms[i], _ = extcoq.ExtTerm(e)
+				}
+				var err error
+				var got []uint16
+				p, pv := vh.Recover(func() {
+					uc := tls.UClient(nullConn{}, &tls.Config{ServerName: "c07.example.com"}, tls.HelloCustom)
+					if err = uc.SetTLSVers(mn, mx, es); err == nil {
+						got = uc.HandshakeState.Hello.SupportedVersions
+					}
+				})
+				obs := "VErr"
+				switch {
+				case p:
+					obs = "VPanic"
+					rn.fail("SetTLSVers/"+panicKind(pv), "UConn.SetTLSVers panicked", map[string]any{"min": mn, "max": mx, "exts": terms},
+						fmt.Sprint(pv), "a version range or an error")
+				case err == nil:
+					head := got
+					if len(head) > 4 {
+						head = head[:4]
+					}
+					last := uint16(0)
+					if len(got) > 0 {
+						last = got[len(got)-1]
+					}
+					obs = fmt.Sprintf("(VOk %d %s %d)", len(got), vh.U16s(head), last)
+				}
+				rn.c.Count("setvers")
+				rn.c.Case("setvers", fmt.Sprintf("CSetVers %d %d %s %s", mn, mx, vh.List(terms), obs),
+					fmt.Sprintf("setvers/%04x/%04x/%d", mn, mx, li), obs != "VErr", nil)
+			}
+		}
+	}
+}
